@@ -12,13 +12,23 @@ open SwV.Model.C16
 
 def holdsShard (n : ENode) (vid s : Nat) : Bool := n.hasEntry vid && hasBit (n.bits vid) s
 
-/-- one planned move judged on the layout `sp` the earlier moves produced -/
-def judgeMove (phase : String) (sp : ESt) (src vid s dst : Nat) : List String :=
+/-- free shard slots of a server RECOUNTED from where the shards are: its capacity (`cap` = (max − active)·10
+    of the hdd disk as declared in the topology, 0 without hdd disk) minus the shards its bitmaps hold -/
+def recountFree (cap : Nat → Int) (n : ENode) : Int := cap n.id - (n.total : Int)
+
+/-- one planned move judged on the layout `sp` the earlier moves produced.  `cap` (when given) = the
+    declared capacities: the free-slot conjunct is then also judged by the recount, not only by the
+    planner's own `freeEcSlot` counter. -/
+def judgeMove (phase : String) (sp : ESt) (src vid s dst : Nat) (cap : Option (Nat → Int) := none) : List String :=
   match sp.node? src, sp.node? dst with
   | some sn, some d =>
     (if !holdsShard sn vid s then [phase ++ "/moves-shard-the-source-does-not-hold"] else []) ++
     (if holdsShard d vid s then [phase ++ "/target-already-holds-shard"] else []) ++
     (if d.free ≤ 0 then [phase ++ "/target-without-free-slot"] else []) ++
+    -- the counter says there is room, the shards that are really there say there is none
+    (match cap with
+     | some c => if d.free > 0 && recountFree c d ≤ 0 then [phase ++ "/target-full-by-recount-of-its-shards"] else []
+     | none => []) ++
     (if d.rack != sn.rack && decide (sp.rackCount vid d.rack + 1 > ceilDiv 14 sp.racks.length) then [phase ++ "/rack-over-even-spread"] else [])
   | _, _ => [phase ++ "/unknown-server"]
 
